@@ -187,6 +187,10 @@ namespace sim
 
 		if (!m_server_connection.is_open())
 		{
+			// the lookup for an earlier (pipelined) request is still in progress.
+			// This request is sent along with it once we're connected
+			if (m_resolving) return;
+
 			boost::system::error_code err;
 			tcp::endpoint target(make_address(host.c_str(), err)
 				, static_cast<unsigned short>(port));
@@ -194,6 +198,7 @@ namespace sim
 			{
 				char port_str[10];
 				std::snprintf(port_str, sizeof(port_str), "%d", port);
+				m_resolving = true;
 				m_resolver.async_resolve(host, port_str
 					, std::bind(&http_proxy::on_domain_lookup, this, _1, _2));
 				return;
@@ -211,6 +216,7 @@ namespace sim
 	void http_proxy::on_domain_lookup(boost::system::error_code const& ec
 		, const asio::ip::tcp::resolver::results_type ips)
 	{
+		m_resolving = false;
 		if (ec || ips.empty())
 		{
 			if (ec)
@@ -337,6 +343,7 @@ namespace sim
 		m_num_client_in_bytes = 0;
 		m_num_server_out_bytes = 0;
 		m_num_in_bytes = 0;
+		m_resolving = false;
 
 		error_code err;
 		m_client_connection.close(err);
